@@ -93,8 +93,8 @@ CLAIMS = {
 ADD = {
  "C01": ("hash-provenance rule (md5.New -> TeeReader -> copy -> Sum order), drain-before-Sum rule for HashReader, store/delete ordering rule, map-rooted-at-backend rule",
          "the stored ETag is hex(Sum()) of an md5 hash that is the TeeReader writer of the copied stream, finalised after the copy; a HashReader's Sum() is taken only after it was copied to its end; in-place metadata replacement deletes before it stores; no per-process maps hang off the backend struct."),
- "C02": ("E-TIME direction rules for expiry and clock skew; no-map rule for the rebuilt request; map-of-struct write-back rule in the IAM cache",
-         "a presigned URL is refused as expired only on the edge now > date+expires and the request date is refused on both sides of the skew window; the request rebuilt for verification collects query arguments in no map; the IAM cache stores an updated account back."),
+ "C02": ("E-TIME direction rules for expiry and clock skew; no-map rule for the rebuilt request; map-of-struct write-back rule in the IAM cache; reader-chain rule on the body-reader context local",
+         "a presigned URL is refused as expired only on the edge now > date+expires and the request date is refused on both sides of the skew window; the request rebuilt for verification collects query arguments in no map; the IAM cache stores an updated account back; every reader a middleware stores as body reader is built on the reader read from that same local (the deferred signature check is never discarded)."),
  "C03": ("table agreement Effect.Validate vs evaluator; policy-decides-alone rule in VerifyAccess; trailing-* guard for prefix matching",
          "with a policy present VerifyAccess returns VerifyBucketPolicy's verdict unchanged and never reaches the ACL check; Validate accepts exactly the effects the evaluator knows."),
  "C04": ("substring-ancestry rule (each returned piece is cut out of a validated value)",
@@ -103,8 +103,8 @@ ADD = {
          "helpers forwarding a *os.File to StoreAttribute obey the same before/after-link rules; no removal of the destination or its versions before the body was received; every writing os.OpenFile creates with O_EXCL and never truncates."),
  "C11": ("same additions as C05 + delete ordering (data before metadata) + directory-entry rule for upload listing",
          "DeleteObject removes metadata only after the data; ListMultipartUploads lists directory entries only; the C05 additions."),
- "C06": ("checksum-table completeness against the input struct's fields (PutObject, UploadPart); chunk-reader end-of-stream rules imported from C12; drain-before-Sum",
-         "both checksum tables have a row for every Checksum<ALG> input field paired with its own hash type; C12's end-of-stream and signature rules hold for the readers uploads pass through."),
+ "C06": ("checksum-table completeness against the input struct's fields (PutObject, UploadPart); chunk-reader end-of-stream rules imported from C12; drain-before-Sum; reader-chain rule",
+         "both checksum tables have a row for every Checksum<ALG> input field paired with its own hash type; C12's end-of-stream and signature rules hold for the readers uploads pass through; the MD5/auth/chunk readers are chained, none replaces the others."),
  "C07": ("must-cut rules on every append of the walk callbacks (prefix, marker); skipdirs test on the walk root; versioning-independence of the delete-marker filter",
          "every appended key passed a prefix test and a marker test (files and explicit directory objects, Walk and WalkVersions); a walk root derived from the prefix is tested against skipdirs; the delete-marker filter does not depend on the versioning status."),
  "C08": ("sibling cross-check of the scoutfs completion; exemption-by-position rule",
@@ -113,8 +113,8 @@ ADD = {
          "the version copy stores every attribute it read and is preallocated with the size of the existing object's stat."),
  "C10": ("E-TIME direction rules for retain-until comparisons; loop-exit rule; same-target rule; named-error-code rule",
          "retention blocks while retain-until > now and past dates are refused (direction only); no allow verdict from inside the per-object loop; the judged retention is read from the object that is written; lookup errors are tolerated only for NoSuchKey / NoSuchObjectLockConfiguration."),
- "C12": ("interprocedural raw-io.EOF summary over repository callees",
-         "a Read method never returns the error of a helper that can carry the inner stream's io.EOF unmapped."),
+ "C12": ("interprocedural raw-io.EOF summary over repository callees; verdict closure for the unsigned trailer; reader-chain rule",
+         "a Read method never returns the error of a helper that can carry the inner stream's io.EOF unmapped; the unsigned reader's io.EOF lies behind the accepting edge of the comparison of hash.Hash.Sum with the announced checksum wherever Read and its helpers make it; the chunk reader is installed on top of the installed body reader."),
  "C13": ("ownership rule for the file behind a ranged body",
          "FileSectionReadCloser's methods use the file for Close only."),
  "C14": ("policy-decides-alone rule shared with C03; Effect table agreement",
@@ -179,7 +179,7 @@ def main():
             "name": "vgwsa",
             "path": "/verif/sa",
             "serves_properties": sorted(CLAIMS),
-            "kind_free_text": "repository-specific static analyser (go/packages + go/types + go/ssa, x/tools v0.29.0): cut-reachability guard rules, value-origin slices, route/table extraction, who-may-call, reader typestate, zone abstract interpretation of loop-free integer code (E-ZONE), clock-comparison normal forms (E-TIME), compiler bounds-check listing; loads /repo's working tree on every run",
+            "kind_free_text": "repository-specific static analyser (go/packages + go/types + go/ssa, x/tools v0.29.0): cut-reachability guard rules, value-origin slices, route/table extraction, who-may-call, reader typestate, zone abstract interpretation of loop-free integer code (E-ZONE), clock-comparison normal forms (E-TIME), compiler bounds-check listing; the SSA is first normalised by inlining same-package helpers that no rule names, and renamed functions/fields/parameters/tables are relocated by fingerprint against a reference table (rules are indifferent to extract-function and rename refactorings); loads /repo's working tree on every run",
         }],
         "checks": checks,
         "not_applicable": na,
